@@ -23,6 +23,8 @@ ASSUMPTIONS = ["the empty path is not generated (the property does not say wheth
 PROBES = ["invivo_adds", "invivo_prefix_evictions", "invivo_prefix_rejections", "prefix_eviction", "reject_prefix", "reject_dup", "reject_negative", "reject_badtype",
           "add_after_remove_same", "add_after_remove_prefix", "add_after_evict_then_remove",
           "remove_hit", "remove_miss", "branching"]
+# the same check again, smaller, in interpreters started with assertions stripped (python -O / PYTHONOPTIMIZE=1)
+ENV_VARIANTS = [{"name": "python-O", "env": {"PYTHONOPTIMIZE": "1"}, "runs": {'quick': 4000, 'thorough': 40000}}]
 TIERS = {
     "quick": {"runs": 40000, "budget_s": 180, "chunk": 500, "selftest": 200, "per_run_timeout": 300},
     "thorough": {"runs": 0, "budget_s": 900, "chunk": 2500, "selftest": 1000, "per_run_timeout": 300},
